@@ -67,6 +67,43 @@ func startCanary() *canary {
 	return c
 }
 
+// stallBound is the largest stall (of the canary, or of an in-memory Create seen in the tap log of a finding, which
+// takes microseconds on a machine that is not stalled) under which a time-bound verdict of the scenario counts. S2
+// with two consecutive lost renewals races L/2 + L/8 + L/8 of timers against one lease: its slack of L/4 can be eaten
+// by three or four stalls (Create, first timer, the retries), so a single one must stay below L/16; everything else
+// has at least 3L/8 of slack.
+func stallBound(sc scen) time.Duration {
+	if sc.Kind == "S2" {
+		return sc.L / 16
+	}
+	return sc.L / 8
+}
+
+// observedStall: the canary's worst oversleep, or the longest in-memory Create in the tap logs of the findings
+// (scenarios whose tap delays calls on purpose are left out).
+func observedStall(sc scen, canary time.Duration, fs []finding) time.Duration {
+	worst := canary
+	if sc.SlowBefore != 0 || sc.SlowAfter != 0 {
+		return worst
+	}
+	for _, f := range fs {
+		m, ok := f.w.(map[string]any)
+		if !ok {
+			continue
+		}
+		evs, ok := m["tap"].([]tapEv)
+		if !ok {
+			continue
+		}
+		for _, ev := range evs {
+			if ev.Op == "Create" && ev.Fault == "" && ev.Ret-ev.Call > worst {
+				worst = ev.Ret - ev.Call
+			}
+		}
+	}
+	return worst
+}
+
 // ---------------------------------------------------------------- storage tap
 
 type tapEv struct {
@@ -918,7 +955,14 @@ func relockScenario(sc scen) []finding {
 		time.Sleep(200 * time.Microsecond)
 	}
 	time.Sleep(sc.Phase)
-	h.Lock()
+	// the lock was released by the Unlock above: the same Locker gets it again at once. Bounded (4 L + 20 s), so that
+	// a record that is kept alive after Unlock is a finding here and not a child that hangs until its watchdog.
+	ctx, cancel := context.WithTimeout(context.Background(), 4*L+20*time.Second)
+	err := h.LockWithCtx(ctx)
+	cancel()
+	if err != nil {
+		return []finding{{sig: "lease/held-after-unlock/S9", what: fmt.Sprintf("S9 L=%v: the holder unlocked while a slow renewal answer was on its way; %v after the answer the same Locker could not lock again within 4 L + 20 s (%v): the released lock is still taken", L, sc.Phase, err), w: map[string]any{"scenario": sc, "tap": tH.events()}}}
+	}
 	out := guardTenure(e, sc, tH, c, 4*L, "relock-after-slow-renewal-answer")
 	h.Unlock()
 	return out
@@ -950,8 +994,8 @@ func TestChild(t *testing.T) {
 				fs = runScenario(sc)
 			}
 			close(cn.stop)
-			stall := time.Duration(cn.worst.Load())
-			if stall > sc.L/8 && len(fs) > 0 && attempt < 3 {
+			stall := observedStall(sc, time.Duration(cn.worst.Load()), fs)
+			if stall > stallBound(sc) && len(fs) > 0 && attempt < 3 {
 				res.Counters["scenarios_repeated_because_of_a_stall"]++
 				continue
 			}
@@ -960,7 +1004,7 @@ func TestChild(t *testing.T) {
 			b, _ := json.Marshal(sc)
 			res.Classes = append(res.Classes, string(b))
 			for _, f := range fs {
-				if stall > sc.L/8 {
+				if stall > stallBound(sc) {
 					res.Inconcl = append(res.Inconcl, fmt.Sprintf("%s: %s (canary stall %v)", f.sig, f.what, stall))
 					continue
 				}
@@ -1027,7 +1071,7 @@ func TestCheck(t *testing.T) {
 	run := report.New("C05", "fault_enumeration")
 	defer run.Finish(t)
 	run.Rule("real-clock scenarios with lease L set through a hook, one storage tap per provider: S1 hold for 6 L (20 L thorough) with a TryLock-spinning and a parked contender, the holder acquiring through Lock, through LockWithCtx or through TryLock with a context that is cancelled right after the acquisition (the tap refuses calls whose context is done, as a network backend does); S6 a renewal answered with an error while the holder is unlocking, then another caller holds; S2 the k-th renewal CAS answered by an injected error without executing, for every k<=K, and sets of several failing calls in one tenure ({1,3,5}, {2,4,6}, {1,3,5,7}, {1,2}, {3,4}, six, seven and eight non-consecutive failures up to the 14th call); during S1/S2 goroutines of the holder's process keep trying TryLock / LockWithCtx on the SAME (held) Locker object; S3 the holder's storage access dies at a phase of the renewal cycle and a parked contender must take over after the last lease ran out; S5 the answer of the k-th renewal is still in flight (applied by the storage) when the holder unlocks and the same Locker locks again, then the late answer arrives (variants: same Locker locks again / another provider's Locker holds next): the new tenure is held 3 L under the monitors; the order invariant of the timer queue (hook) is sampled throughout; S8 (one child process each) every renewal is slow but well inside half a lease (request slow L/6, answer slow 0.3 L, both L/8; a caller whose context ends meanwhile gets the context's error), hold 5 L; S2 also with the holder's provider shut down right after the acquisition (the holder holds on); S12 the old tenure's renewal request reaches the storage between Unlock and the next caller's Create (same Locker): the next caller must acquire; S11 A's renewal request is on its way when A unlocks, B acquires and dies, A's Locker waits again, then the old request fails transiently: B's record must still run out and A acquire (context 4 L + 3 s); S10 (child processes) two locks taken together in one process, the storage of the OTHER lock answers its renewal after 0.75 leases: the watched lock (its storage answers at once) is held 3 leases against a spinning Locker; S9 (child processes, pool staged to 3 idle workers) the storage answers renewals 0.15 L late, the holder unlocks while an answer is on its way, the answer arrives, the same Locker locks again shortly after and holds 4 L; S7 (one child process each, nothing else uses the timer pool): the pool already has 2/3/5 idle workers when the lock is taken, or the process already has far timers pending (a lock of another name with a 30 s lease, a foreign timer 20 s ahead; 0/1/3 idle workers), hold 4 L; S4 Unlock after hold times around multiples of L/2 with renewals delayed 0-5 ms (Unlock racing a renewal), then nothing / re-acquisition by the same / another Locker. In S1-S3 the caller that takes over after waiting holds for 3 L under the same monitors (its first lease must be a full one). Monitors over the tap log and probes of the record: exclusion, lease gap (each renewal completes before the lease it renews runs out), record present while held, renewal chain survives a transient error, take-over never before and at most L+2 s after the last lease ran out, at most one failing stale renewal after Unlock. distinct = distinct (scenario kind, L, k / phase / re-acquisition) instances run")
-	run.Assume("exclusion during a tenure presupposes renewals that are on time, i.e. a machine that does not stall the process for a good part of a lease: like every verdict that rests on a two-sided time bound, a contender that acquires while the holder holds counts only when the canary saw no stall above L/8; two-sided time bounds are guarded by a stall canary: a bound broken while the canary saw a stall above L/8 is repeated (up to 3 times) and only a repeat without stall counts")
+	run.Assume("exclusion during a tenure presupposes renewals that are on time, i.e. a machine that does not stall the process for a good part of a lease: like every verdict that rests on a two-sided time bound, a contender that acquires while the holder holds counts only when the canary saw no stall above L/8 (L/16 in S2, whose double-failure sets leave L/4 of slack for three or four timers; an in-memory Create that takes that long in the tap log counts as a stall too); two-sided time bounds are guarded by a stall canary: a bound broken while a stall was seen is repeated (up to 3 times) and only a repeat without stall counts")
 	run.Assume("a transient renewal failure is an attempt that was not applied (request lost); unacknowledged but applied renewals are not generated")
 
 	if p := os.Getenv("VERIF_REPLAY"); p != "" {
@@ -1140,11 +1184,11 @@ func TestCheck(t *testing.T) {
 				cn := startCanary()
 				fs := runScenario(sc)
 				close(cn.stop)
-				stall := time.Duration(cn.worst.Load())
+				stall := observedStall(sc, time.Duration(cn.worst.Load()), fs)
 				run.Max("canary_worst_stall_us", int64(stall/time.Microsecond))
 				retry := false
 				for _, f := range fs {
-					if f.timeBound && stall > sc.L/8 {
+					if f.timeBound && stall > stallBound(sc) {
 						retry = true
 					}
 				}
@@ -1157,7 +1201,7 @@ func TestCheck(t *testing.T) {
 				b, _ := json.Marshal(sc)
 				run.DistinctStr(string(b))
 				for _, f := range fs {
-					if f.timeBound && stall > sc.L/8 {
+					if f.timeBound && stall > stallBound(sc) {
 						run.Inconclusive(fmt.Sprintf("%s: %s (canary stall %v)", f.sig, f.what, stall))
 						continue
 					}
